@@ -38,6 +38,11 @@ class Oracle:
         if p is None:
             p = [1.0 / len(arr)] * len(arr)
         p = [float(x) for x in np.asarray(p).reshape(-1)]
+        # numpy's own argument checks (a sampler that passes an invalid vector fails on the real RNG too)
+        if any(x < 0 for x in p):
+            raise ValueError("probabilities are not non-negative")
+        if abs(sum(p) - 1.0) > 1e-8:
+            raise ValueError("probabilities do not sum to 1")
         support = [i for i, x in enumerate(p) if x > 0]
         if n > self.max_k:
             raise Horizon(f"choice point of size {n}")
